@@ -56,24 +56,21 @@ theorem call_args (m : Manipulator) (src dst : Var) (args : List Var) :
 
 /-- the pointer-ness the operand *variable* really has inside the generated function: in arg style
 the destination parameter is always a pointer, whatever the method declares -/
-def effectivePointer (f : Function) (isDst : Bool) : Bool :=
-  if isDst then (if f.dstVarStyle == .arg then true else f.dst.pointer) else f.src.pointer
+def effectivePointer (style : DstVarStyle) (declaredPtr : Bool) : Bool :=
+  if style == .arg then true else declaredPtr
 
-/-- **T10.2' (adaptation is right where the declared pointer-ness is the real one).** -/
-theorem dst_adaptation_partial (f : Function) (h : f.dstVarStyle = .ret ∨ f.dst.pointer = true) (isPtr : Bool) :
-    hookArg f.dst isPtr =
-      (if effectivePointer f true = isPtr then f.dst.name
-       else if effectivePointer f true then "*" ++ f.dst.name else "&" ++ f.dst.name) := by
-  have : effectivePointer f true = f.dst.pointer := by
-    unfold effectivePointer
-    rcases h with h | h
-    · simp [h]
-    · simp [h]
-  rw [this]; exact hookArg_cases f.dst isPtr
+/-- **T10.2' (the adaptation uses the real pointer-ness).** `CreateFunction` hands the generator a
+destination `Var` whose `pointer` flag is the effective one (the repaired DESIGN §5 #12), so the
+hook argument is `dst` when hook and variable agree, `*dst` / `&dst` otherwise. -/
+theorem dst_adaptation (v : Var) (style : DstVarStyle) (isPtr : Bool) :
+    hookArg (if style == .arg then { v with pointer := true } else v) isPtr =
+      (if effectivePointer style v.pointer = isPtr then v.name
+       else if effectivePointer style v.pointer then "*" ++ v.name else "&" ++ v.name) := by
+  unfold effectivePointer
+  cases style <;> simp [hookArg_cases]
 
-/-- witness of the excluded case (DESIGN §5 #12): arg style, destination declared by value, hook
-takes `*D`: the parameter `dst` already is a `*D`, the text takes its address once more -/
-example : hookArg ⟨"dst", "D", false, false⟩ true = "&dst" := by decide
+/-- regression witness: arg style, destination declared by value, hook takes `*D`: plain `dst` -/
+example : hookArg { (⟨"dst", "D", false, false⟩ : Var) with pointer := true } true = "dst" := by decide
 
 /-! ## acceptance (`buildManipulator`) -/
 
